@@ -11,4 +11,5 @@ var vEntries = map[string]interface{}{
 	"VScaleDown": VScaleDown,
 	"VLemmaSwr": VLemmaSwr,
 	"VTwoReplicas": VTwoReplicas,
+	"VTransfer": VTransfer,
 }
